@@ -34,6 +34,7 @@ var redirects = map[string]string{
 	"os.Remove":                            "M_os_Remove",
 	"os.IsNotExist":                        "M_os_IsNotExist",
 	"os.IsPermission":                      "M_os_IsPermission",
+	"errors.Is":                            "M_errors_Is",
 }
 
 // which intrinsics may run inside merged regions
